@@ -25,11 +25,53 @@ type Replay struct {
 	Property string                 `json:"property"`
 	Scenario string                 `json:"scenario"`
 	Params   map[string]interface{} `json:"params,omitempty"`
-	Answers  []int                  `json:"answers,omitempty"`
-	Schedule []int                  `json:"schedule,omitempty"`
+	Answers  IntList                `json:"answers,omitempty"`
+	Schedule IntList                `json:"schedule,omitempty"`
 	Clause   string                 `json:"clause"`
 	Trace    string                 `json:"trace,omitempty"`
 	Repro    string                 `json:"reproducer_test,omitempty"`
+}
+
+// IntList marshals as one string "0 1 2 ..." (answer lists run to thousands of
+// entries and MarshalIndent would put each on its own line); it unmarshals from
+// that form or from a plain JSON array.
+type IntList []int
+
+func (l IntList) MarshalJSON() ([]byte, error) {
+	var b strings.Builder
+	b.WriteByte('"')
+	for i, v := range l {
+		if i > 0 {
+			b.WriteByte(' ')
+		}
+		b.WriteString(strconv.Itoa(v))
+	}
+	b.WriteByte('"')
+	return []byte(b.String()), nil
+}
+
+func (l *IntList) UnmarshalJSON(data []byte) error {
+	*l = nil
+	if len(data) > 0 && data[0] == '[' {
+		var a []int
+		if err := json.Unmarshal(data, &a); err != nil {
+			return err
+		}
+		*l = a
+		return nil
+	}
+	var s string
+	if err := json.Unmarshal(data, &s); err != nil {
+		return err
+	}
+	for _, f := range strings.Fields(s) {
+		v, err := strconv.Atoi(f)
+		if err != nil {
+			return err
+		}
+		*l = append(*l, v)
+	}
+	return nil
 }
 
 // Violation is one reported failure of the property.
@@ -70,6 +112,9 @@ type Ctx struct {
 	vioSeen     map[string]bool
 	distinct    map[uint64]struct{}
 
+	// Dynamic makes Sharded hand out indices on demand (first come, first served)
+	// instead of i%N; incompatible with OnCrash's re-run of a fixed shard.
+	Dynamic        bool
 	isWorker       bool
 	shardK, shardN int
 	workerOut      string
@@ -452,6 +497,18 @@ func runWorker(id, tier string, k, n int, out string) {
 // the workers' coverage. Scenario bodies may install process-global hooks.
 func (c *Ctx) Sharded(n int, body func(i int)) {
 	if c.isWorker {
+		if dir := os.Getenv("VERIF_CLAIM_DIR"); dir != "" {
+			// dynamic balancing: a worker claims the next unclaimed index by creating a file exclusively
+			for i := 0; i < n; i++ {
+				f, err := os.OpenFile(filepath.Join(dir, strconv.Itoa(i)), os.O_CREATE|os.O_EXCL|os.O_WRONLY, 0o644)
+				if err != nil {
+					continue
+				}
+				f.Close()
+				body(i)
+			}
+			return
+		}
 		for i := c.shardK; i < n; i += c.shardN {
 			body(i)
 		}
@@ -460,6 +517,13 @@ func (c *Ctx) Sharded(n int, body func(i int)) {
 	N := workers()
 	if N > n {
 		N = n
+	}
+	claimDir := ""
+	if c.Dynamic && N > 1 && os.Getenv("VERIF_INPROC") == "" {
+		claimDir = filepath.Join(verifRoot, "build", "tmp", fmt.Sprintf("claim-%s-%d", c.ID, os.Getpid()))
+		_ = os.RemoveAll(claimDir)
+		_ = os.MkdirAll(claimDir, 0o755)
+		defer os.RemoveAll(claimDir)
 	}
 	if N <= 1 || os.Getenv("VERIF_INPROC") != "" {
 		for i := 0; i < n; i++ {
@@ -482,6 +546,9 @@ func (c *Ctx) Sharded(n int, body func(i int)) {
 				cmd.Env = append(os.Environ(), "GOMAXPROCS=2", "VERIF_DEADLINE_UNIX="+strconv.FormatInt(c.deadline.Unix(), 10))
 				if trace != "" {
 					cmd.Env = append(cmd.Env, "VERIF_TRACE_FILE="+trace)
+				}
+				if claimDir != "" {
+					cmd.Env = append(cmd.Env, "VERIF_CLAIM_DIR="+claimDir)
 				}
 				var tail tailBuffer
 				cmd.Stderr = &tail
